@@ -498,7 +498,7 @@ class FileResponse(Response, FileResponseMixin):
                 send,
                 exception.status_code,
                 [
-                    (k.encode("latin-1"), v.encode("latin-1"))
+                    (k.lower().encode("latin-1"), v.encode("latin-1"))
                     for k, v in (exception.headers or {}).items()
                 ],
             )
